@@ -356,6 +356,19 @@ impl Observer for Shadow {
             }
         }
         if self.check_model {
+            if let Some(e) = self.expected_cut.take() {
+                // The previous instruction was an EndAtomic that popped its marker but never
+                // committed: the alternatives created inside the group are still alive.
+                if st.depth() != e {
+                    self.fail(
+                        "atomic-commit-missing",
+                        format!(
+                            "after the EndAtomic before pc {}: {} alternatives alive, the group was entered at depth {} (every alternative created since must be discarded, none older)",
+                            pc, st.depth(), e
+                        ),
+                    );
+                }
+            }
             if let Some(t) = self.failneg_target.take() {
                 // first instruction after a negative look-around failed: the unwinding must have
                 // removed exactly the look-around's own alternative and everything above it, and
